@@ -2,6 +2,7 @@
 import itertools, json
 import z3
 from vf.pyvc.lib import REG
+from vf.pyvc import timelib  # noqa: F401
 from contracts import markings as K
 
 LEVEL = 'exploration'
@@ -70,6 +71,10 @@ def run(chk):
                        '2.1 SDO, plain dictionary) all states reachable by <= 2 adds x 11 selectors (incl. string-prefix siblings created / created_by_ref, list indices, properties holding "" and false, '
                        'embedded-object properties) x 3 markings (2 marking refs + 1 language) x inherited/descendants flags: the laws of the statement against a set model; '
                        'multi-selector adds with partial overlap; commutativity; results are new versions with non-marking content unchanged.')
+    # every marking result is produced by new_version: its contract (C05) is an obligation of this property too ("every result is a valid new version")
+    from contracts import versioning as KV
+    for c in (KV.fudge_contract(), KV.new_version_contract()):
+        chk.prove(c); chk.canary(c)
     for c in (K.object_add_contract(), K.object_remove_contract(), K.object_is_marked_contract(), K.object_clear_contract(), K.validate_contract(), K.validate_selector_contract(), K.evaluate_expression_contract()):
         chk.prove(c); chk.canary(c)
 
@@ -278,3 +283,55 @@ def run(chk):
         except (stix2.exceptions.STIXError, ValueError) as ex:
             return ('selector#valid selector rejected:' + type(ex).__name__, f'{ctx}: marking operations on the existing path {sel!r} raised {type(ex).__name__}: {str(ex)[:100]}', {})
     chk.bounded('selectors with one- and two-character nested steps', list(short_cases()), short_check, classify=lambda c: c, bound='language-content (2.1; sibling keys en / en-us), observed-data (2.0), a report with lists of 11 and 12 elements; object and dictionary form, 4-7 selectors each, marking-ref and language markings')
+    marking_forms_family(chk)
+
+
+def marking_forms_family(chk):
+    """every way a marking can be named in a call -- its id, the MarkingDefinition object, a list of one, a list mixing both -- gives the same result as the id; queries
+    with any form agree with get_markings; object-level and granular; objects of both versions and dictionaries"""
+    import stix2
+    from stix2 import markings, v20, v21
+    t = '2020-01-02T03:04:05.000Z'
+
+    def objs():
+        yield 'v21 object', v21.Malware(name='m', is_family=False, description='d', created=t, modified=t), (v21.TLP_AMBER, v21.TLP_GREEN)
+        yield 'v20 object', v20.Malware(name='m', labels=['x'], description='d', created=t, modified=t), (v20.TLP_AMBER, v20.TLP_GREEN)
+        yield 'v21 dictionary', json.loads(v21.Malware(name='m', is_family=False, description='d', created=t, modified=t).serialize()), (v21.TLP_AMBER, v21.TLP_GREEN)
+        yield 'v21 relationship', v21.Relationship('identity--311b2d2d-f010-4473-83ec-1edf84858f4c', 'related-to', 'identity--c78cb6e5-0c4b-4611-8297-d1b8b55e40b5', description='d', created=t, modified=t), (v21.TLP_AMBER, v21.TLP_GREEN)
+
+    def strip(o):
+        d = json.loads(o.serialize()) if hasattr(o, 'serialize') else json.loads(json.dumps(o, default=str))
+        d.pop('modified', None)
+        if 'granular_markings' in d: d['granular_markings'] = sorted(d['granular_markings'], key=lambda g: json.dumps(g, sort_keys=True))
+        if 'object_marking_refs' in d: d['object_marking_refs'] = sorted(d['object_marking_refs'])
+        return d
+
+    def cases():
+        for kind, o, (A, G) in objs():
+            first = 'relationship_type' if 'relationship' in kind else 'name'
+            for sel in (None, [first], [first, 'description']):
+                for fname, form, ids in (('object', A, [A.id]), ('list of one object', [A], [A.id]), ('list of one id', [A.id], [A.id]), ('object + id', [A, G.id], [A.id, G.id]), ('id + object', [A.id, G], [A.id, G.id])):
+                    yield (kind, o, sel, fname, form, ids)
+
+    def check(case):
+        kind, o, sel, fname, form, ids = case
+        ctx = f'{kind}, selectors {sel}, marking given as {fname}'
+        try:
+            want = markings.add_markings(o, ids, sel); got = markings.add_markings(o, form, sel)
+            if strip(got) != strip(want): return ('forms#add: every way of naming a marking gives the same result', f'{ctx}: {strip(got)} vs {strip(want)}', {})
+            for inh, desc in itertools.product((False, True), repeat=2):
+                if sel is None and (inh or desc): continue
+                reported = markings.get_markings(want, sel, inherited=inh, descendants=desc) if sel is not None else markings.get_markings(want)
+                for one_id, one_form in zip(ids, form if isinstance(form, list) else [form]):
+                    kw = dict(inherited=inh, descendants=desc) if sel is not None else {}
+                    r = markings.is_marked(want, one_form, sel, **kw)
+                    if r != (one_id in reported): return ('query#is_marked(M) <=> M in get_markings', f'{ctx}: is_marked({type(one_form).__name__}, inherited={inh}, descendants={desc}) = {r}, get_markings reports {sorted(x[-6:] for x in reported)}', {})
+                    if hasattr(want, 'is_marked') and want.is_marked(one_form, sel, **kw) != r: return ('query#method and function agree', f'{ctx}', {})
+                r = markings.is_marked(want, form, sel, **(dict(inherited=inh, descendants=desc) if sel is not None else {}))
+                if r is not True: return ('add#then reported by is_marked', f'{ctx}: is_marked(<the same argument>, inherited={inh}, descendants={desc}) = {r} right after add', {})
+            if strip(markings.remove_markings(want, form, sel)) != strip(markings.remove_markings(want, ids, sel)): return ('forms#remove: every way of naming a marking gives the same result', ctx, {})
+            if strip(markings.set_markings(o, form, sel)) != strip(markings.set_markings(o, ids, sel)): return ('forms#set: every way of naming a marking gives the same result', ctx, {})
+        except (stix2.exceptions.STIXError, ValueError, TypeError) as ex:
+            return ('forms#accepted:' + type(ex).__name__, f'{ctx}: {type(ex).__name__}: {str(ex)[:120]}', {})
+    chk.bounded('marking argument forms (id, object, lists of either)', list(cases()), check, classify=lambda c: (c[0], repr(c[2]), c[3]),
+                bound='4 subjects x 3 selector sets (object-level, one, two) x 5 forms x inherited/descendants flags; add / is_marked / remove / set, function and method')
